@@ -46,6 +46,11 @@ ApplyOp(m, op) ==
     [] op.o = "Remove"     -> [m |-> RemoveAll(m, op.x),      res |-> [k |-> "ok"]]
     [] op.o = "Count"      -> [m |-> m,                       res |-> [k |-> "n", n |-> Len(m)]]
     [] op.o = "First"      -> [m |-> m,                       res |-> IF m = <<>> THEN [k |-> "none"] ELSE [k |-> "id", id |-> m[1]]]
+    \* read-only views of the member list (growth beyond C13's statement)
+    [] op.o = "IRIs"       -> [m |-> m,                       res |-> [k |-> "ids", ids |-> m]]
+    [] op.o = "Normalize"  -> [m |-> m,                       res |-> IF m = <<>> THEN [k |-> "none"]
+                                                                      ELSE IF Len(m) = 1 THEN [k |-> "id", id |-> m[1]] ELSE [k |-> "ids", ids |-> m]]
+    [] op.o = "ItemsMatch" -> [m |-> m,                       res |-> [k |-> "bool", b |-> \A i \in 1..Len(op.xs) : op.xs[i] \in Elems(m)]]
 
 OpsFor(k) ==
   {[o |-> "Append", x |-> x] : x \in Ids} \cup
